@@ -11,8 +11,10 @@ package main
 //     form with unnamed results (the names become zero-initialised locals, a bare `return` returns them). The two
 //     forms are the same function when the body has no defer / closure (checked). The shared inliner (c15norm.go)
 //     does not inline functions with named results; after this step it can.
-//  2. the shared inliner is run again over the two packages with a larger size limit (the helper that holds the
-//     whole extended-colour switch is larger than the default limit).
+//  2. the shared inliner is run again over the two packages with a larger size limit: the helper that holds the
+//     whole extended-colour switch is larger than the default limit, and so is a helper that holds the whole body
+//     of a consumer (term.sgr as a one-line wrapper around applySGR(params, &vt.cursor.Style): ~1300 nodes). The
+//     limit only bounds the growth of the copy; only new helpers the consumers call are candidates.
 //  3. in the consumer functions, single-definition pure locals (sub := params[i], rest := params[i:],
 //     remaining := len(params) - i, dst := &style.Foreground) are substituted by their definitions with the
 //     path-sensitive safety conditions of c15PropagateIn, so that guards and index expressions speak about the
@@ -112,7 +114,7 @@ func c18Normalise(c *Ctx) {
 			anchors[n] = true
 		}
 		old := c15MaxInlineNodes
-		c15MaxInlineNodes = 600
+		c15MaxInlineNodes = 4000
 		c15NormaliseOpt(c, shorts, anchors, false)
 		c15MaxInlineNodes = old
 		if len(c.Obs) > before {
